@@ -1001,8 +1001,12 @@ impl Monitor for C08 {
         let q = &rec.obs.r_naks;
         let is_suffix = q.len() <= self.prev_q.len() && self.prev_q[self.prev_q.len() - q.len()..] == q[..];
         let sent_nak = rec.out.iter().any(|(s, p)| *s == Side::R && matches!(op_of(p), Some(Operations::Nak(_))));
-        let _ = sent_nak;
-        let refilled = !is_suffix;
+        // a queue that got shorter without a NAK going out was rewritten, not drained: it is judged
+        // like a freshly computed one. (What a send step removes need not be what it sends: the
+        // answer to a prompt recomputes the list first.)
+        let shrunk = is_suffix && q.len() < self.prev_q.len();
+        let shrunk_silently = shrunk && !sent_nak && rec.obs.r_sub == "ReceiveData";
+        let refilled = !is_suffix || shrunk_silently;
         if let Some(size) = self.d.eof {
             let missing = self.d.missing(size);
             let meta_missing = !self.d.meta;
@@ -1213,6 +1217,19 @@ impl Monitor for C17 {
             let Indication::Fault(f) = i else { continue };
             ctx.arm("fault");
             let c = f.condition;
+            // ---- the condition named is that of the timer: the action configured for *that*
+            // condition is what the user asked for. A check limit exists only for an
+            // unacknowledged sender waiting for the closure; NAK and positive-ack limits only
+            // in acknowledged mode.
+            let plausible = match c {
+                Condition::CheckLimitReached => *side == Side::S && !scn.ack && scn.closure,
+                Condition::NakLimitReached => *side == Side::R && scn.ack,
+                Condition::PositiveLimitReached => scn.ack,
+                _ => true,
+            };
+            if !plausible {
+                ctx.flag("fault-condition-wrong", format!("{:?}|{:?}", side, c), format!("{:?} declared {:?} in {} mode{}: no such limit exists there, the expiry belongs to another timer (and so does the configured action)", side, c, if scn.ack { "acknowledged" } else { "unacknowledged" }, if scn.closure { " with closure" } else { "" }));
+            }
             // ---- never earlier than the configured number of expirations
             let (first, count, t, what): (Option<u64>, Option<usize>, i64, &str) = match (side, c) {
                 (Side::S, Condition::PositiveLimitReached) => (self.eof_tx.first().copied(), Some(self.eof_tx.len()), scn.t_ack, "EOF transmissions"),
@@ -1222,6 +1239,11 @@ impl Monitor for C17 {
                 (Side::R, Condition::InactivityDetected) => (self.last_rx_r.or(self.r_created), None, scn.t_inact, ""),
                 _ => (None, None, 0, ""),
             };
+            if *side == Side::R && c == Condition::NakLimitReached && self.nak_tx.is_empty() {
+                // new file data resets the count, and a count that restarts needs a NAK of its own
+                // before it can reach any limit
+                ctx.flag("limit-fault-after-progress", "R|NakLimitReached", "the receiver declared NakLimitReached although file data has arrived since its last NAK and no NAK has gone out since (progress resets the count)");
+            }
             if let Some(first) = first {
                 let need = n * t as u64 * 1000;
                 if now - first < need {
